@@ -17,12 +17,14 @@ func Shrink(p Prop, v *Violation, budget time.Duration) *Violation {
 	test := func(w *World) *Violation {
 		tries++
 		// candidates must stay inside the domain the generator guarantees
-		if w.Prog != nil && !InDomain(&w.Cfg, w.Prog) {
-			return nil
-		}
-		for _, pr := range w.Progs {
-			if !InDomain(&w.Cfg, pr) {
+		if w.Prop != "C06" {
+			if w.Prog != nil && !InDomain(&w.Cfg, w.Prog) {
 				return nil
+			}
+			for _, pr := range w.Progs {
+				if !InDomain(&w.Cfg, pr) {
+					return nil
+				}
 			}
 		}
 		for i := 0; i < 2; i++ {
@@ -337,7 +339,11 @@ func candidates(w *World) []*World {
 		pi := pi
 		for i := range p.FailAt {
 			i := i
-			add(func(c *World) bool { q := plans(c)[pi]; q.FailAt = append(q.FailAt[:i], q.FailAt[i+1:]...); return true })
+			add(func(c *World) bool {
+				q := plans(c)[pi]
+				q.FailAt = append(q.FailAt[:i], q.FailAt[i+1:]...)
+				return true
+			})
 		}
 		if p.CancelFrom > 0 {
 			add(func(c *World) bool { plans(c)[pi].CancelFrom = 0; return true })
@@ -347,15 +353,27 @@ func candidates(w *World) []*World {
 		}
 		for i := range p.FailVars {
 			i := i
-			add(func(c *World) bool { q := plans(c)[pi]; q.FailVars = append(q.FailVars[:i], q.FailVars[i+1:]...); return true })
+			add(func(c *World) bool {
+				q := plans(c)[pi]
+				q.FailVars = append(q.FailVars[:i], q.FailVars[i+1:]...)
+				return true
+			})
 		}
 		for i := range p.FailOps {
 			i := i
-			add(func(c *World) bool { q := plans(c)[pi]; q.FailOps = append(q.FailOps[:i], q.FailOps[i+1:]...); return true })
+			add(func(c *World) bool {
+				q := plans(c)[pi]
+				q.FailOps = append(q.FailOps[:i], q.FailOps[i+1:]...)
+				return true
+			})
 		}
 		for i := range p.Unavail {
 			i := i
-			add(func(c *World) bool { q := plans(c)[pi]; q.Unavail = append(q.Unavail[:i], q.Unavail[i+1:]...); return true })
+			add(func(c *World) bool {
+				q := plans(c)[pi]
+				q.Unavail = append(q.Unavail[:i], q.Unavail[i+1:]...)
+				return true
+			})
 		}
 		names := sortedKeys(p.Bind)
 		for _, n := range names {
